@@ -26,7 +26,7 @@ def ident_id(s):
     return int(m.group(1))
 
 
-def name_str(n, mangled=("___OVLD0", "___MAP0", "___CODE0")):
+def name_str(n):
     t = n[0]
     if t == 0:
         return ident(n[1])
@@ -34,7 +34,9 @@ def name_str(n, mangled=("___OVLD0", "___MAP0", "___CODE0")):
         k = n[2]
         key = str(k[1]) if k[0] == 0 else ident(k[1]) if k[0] == 1 else "None"
         return f"__TMP{n[1]}_{key}"
-    return {2: "self", 3: "type", 4: "__SUBTLER_TYPE", 5: mangled[0], 6: mangled[1], 7: mangled[2]}[t]
+    if t in (5, 6, 7):
+        return {5: "___OVLD", 6: "___MAP", 7: "___CODE"}[t] + str(n[1])
+    return {2: "self", 3: "type", 4: "__SUBTLER_TYPE"}[t]
 
 
 def name_enc(s):
@@ -54,12 +56,9 @@ def name_enc(s):
         return [3]
     if s == "__SUBTLER_TYPE":
         return [4]
-    if s.startswith("___OVLD"):
-        return [5]
-    if s.startswith("___MAP"):
-        return [6]
-    if s.startswith("___CODE"):
-        return [7]
+    for pre, t in (("___OVLD", 5), ("___MAP", 6), ("___CODE", 7)):
+        if s.startswith(pre) and s[len(pre):].isdigit():
+            return [t, int(s[len(pre):])]
     return [0, ident_id(s)]
 
 
@@ -421,7 +420,7 @@ def real_analysis(shape):
     return ov.argument_analysis
 
 
-def params_from_analysis(anal, rs, cs, aliases=()):
+def params_from_analysis(anal, rs, cs, aliases=(), nid=0, code=0):
     """model parameters read off the real analysis object"""
     cx = []
     for k in sorted(anal.complex_transforms, key=str):
@@ -434,17 +433,17 @@ def params_from_analysis(anal, rs, cs, aliases=()):
         else:
             posnames.append([0])
     on = lambda x: [1, x] if x is not None else [0]
-    return [int(bool(anal.is_method)), cx, posnames, on(rs), on(cs), list(aliases)]
+    return [int(bool(anal.is_method)), cx, posnames, on(rs), on(cs), list(aliases), nid, code]
 
 
-def run_name_converter(anal, rs, cs, fn_src):
+def run_name_converter(anal, rs, cs, fn_src, nid=0, code=0):
     """Run the real NameConverter exactly as recode does, on the parsed source of one function.
     Returns ("usage", None) or ("ok", new_tree)."""
     from ovld.recode import NameConverter
     from ovld.utils import UsageError
     tree = ast.parse(fn_src)
     nc = NameConverter(anal=anal, recurse_sym=ident(rs) if rs is not None else [], call_next_sym=ident(cs) if cs is not None else [],
-                       ovld_mangled="___OVLD0", map_mangled="___MAP0", code_mangled="___CODE0")
+                       ovld_mangled=f"___OVLD{nid}", map_mangled=f"___MAP{nid}", code_mangled=f"___CODE{code}")
     try:
         new = nc.visit(tree)
     except UsageError:
